@@ -472,7 +472,9 @@ def read_saved_doc(root, problems):
                 break
             want = ["f"] + [m[0] for m in fm]
             have = [k.text for k, v in it.pairs]
-            if have != want:
+            # the order of the keys is not part of the property (the loader looks them up by name); the
+            # order vnacal_save emits is compared by the saver-model tie (checks/c07_savetie.py)
+            if sorted(have) != sorted(want):
                 problems.append("calibration %d entry %d keys %r, expected %r" % (ci, fi, have, want))
                 ok = False
                 break
